@@ -26,7 +26,19 @@ func (e ienv) clone() ienv {
 	return n
 }
 
+const ivBottom = "\x00bottom"
+
+func (e ienv) isBottom() bool { _, b := e[ivBottom]; return b }
+
+func bottomEnv() ienv { return ienv{ivBottom: ival{}} }
+
 func joinEnv(a, b ienv) ienv {
+	if a.isBottom() {
+		return b
+	}
+	if b.isBottom() {
+		return a
+	}
 	out := ienv{}
 	for k, va := range a {
 		if vb, ok := b[k]; ok {
@@ -400,7 +412,29 @@ func (p *Prog) evalI(e ast.Expr, env ienv) ival {
 
 // refineEnv applies `cond == val`.
 func (p *Prog) refineEnv(env ienv, cond ast.Expr, val bool) ienv {
+	if env.isBottom() {
+		return env
+	}
+	out := p.refineEnv1(env, cond, val)
+	if out.isBottom() {
+		return out
+	}
+	for _, v := range out {
+		if v.lo != nil && v.hi != nil && v.lo.Cmp(v.hi) > 0 {
+			return bottomEnv()
+		}
+	}
+	return out
+}
+
+func (p *Prog) refineEnv1(env ienv, cond ast.Expr, val bool) ienv {
 	cond = ast.Unparen(cond)
+	if b, ok := p.constBool(cond); ok {
+		if b != val {
+			return bottomEnv()
+		}
+		return env
+	}
 	if ue, ok := cond.(*ast.UnaryExpr); ok && ue.Op == token.NOT {
 		return p.refineEnv(env, ue.X, !val)
 	}
@@ -471,6 +505,30 @@ func (p *Prog) refineEnv(env ienv, cond ast.Expr, val bool) ienv {
 		}
 	}
 	flip := map[token.Token]token.Token{token.LSS: token.GTR, token.LEQ: token.GEQ, token.GTR: token.LSS, token.GEQ: token.LEQ, token.EQL: token.EQL, token.NEQ: token.NEQ}
+	// decided by the two intervals alone?
+	li, ri := p.evalI(be.X, env), p.evalI(be.Y, env)
+	if li.lo != nil && li.hi != nil && ri.lo != nil && ri.hi != nil {
+		never := false
+		switch op {
+		case token.NEQ:
+			lp, ok1 := li.point()
+			rp, ok2 := ri.point()
+			never = ok1 && ok2 && lp.Cmp(rp) == 0
+		case token.EQL:
+			never = li.hi.Cmp(ri.lo) < 0 || ri.hi.Cmp(li.lo) < 0
+		case token.LSS:
+			never = li.lo.Cmp(ri.hi) >= 0
+		case token.LEQ:
+			never = li.lo.Cmp(ri.hi) > 0
+		case token.GTR:
+			never = li.hi.Cmp(ri.lo) <= 0
+		case token.GEQ:
+			never = li.hi.Cmp(ri.lo) < 0
+		}
+		if never {
+			return bottomEnv()
+		}
+	}
 	apply(be.X, be.Y, op)
 	apply(be.Y, be.X, flip[op])
 	return out
@@ -478,6 +536,15 @@ func (p *Prog) refineEnv(env ienv, cond ast.Expr, val bool) ienv {
 
 // joinEnvKeep joins a and b but never loses what base already knew (both refine base).
 func joinEnvKeep(base, a, b ienv) ienv {
+	if a.isBottom() && b.isBottom() {
+		return bottomEnv()
+	}
+	if a.isBottom() {
+		return b
+	}
+	if b.isBottom() {
+		return a
+	}
 	out := base.clone()
 	for k, v := range joinEnv(a, b) {
 		out[k] = meetIval(out[k], v)
@@ -619,6 +686,9 @@ func (p *Prog) forgetAssigned(env ienv, n ast.Node) ienv {
 }
 
 func (p *Prog) envStep(s ast.Stmt, cur ienv) ienv {
+	if cur.isBottom() {
+		return cur // unreachable code stays unreachable
+	}
 	switch x := s.(type) {
 	case *ast.IfStmt:
 		if x.Init != nil {
@@ -742,6 +812,20 @@ func (p *Prog) envStep(s ast.Stmt, cur ienv) ienv {
 				}
 				kill(k)
 				if t := p.typeOf(l); t == nil || !isIntType(t) {
+					if call, ok := ast.Unparen(x.Rhs[i]).(*ast.CallExpr); ok {
+						if p.zeroLimbsResult(call, cur) {
+							p.setLimbsZero(out, l)
+						}
+					} else if limbsOf(p.typeOf(l)) > 1 {
+						// a plain copy of a limb value carries its limb intervals
+						if src := p.exprKey(x.Rhs[i]); src != "" {
+							for n := 0; n < limbsOf(p.typeOf(l)); n++ {
+								if v, ok := cur[src+"["+itoa(n)+"]"]; ok {
+									out[k+"["+itoa(n)+"]"] = v
+								}
+							}
+						}
+					}
 					continue
 				}
 				v := meetIval(typeRangeOf(p.typeOf(l)), vals[i])
@@ -754,7 +838,30 @@ func (p *Prog) envStep(s ast.Stmt, cur ienv) ienv {
 		// tuple call
 		if len(x.Rhs) == 1 {
 			call, _ := ast.Unparen(x.Rhs[0]).(*ast.CallExpr)
+			zeroIn := call != nil && p.zeroLimbsResult(call, cur)
+			var summary []ivResult
+			if call != nil {
+				summary = p.calleeSummary(call, cur)
+			}
 			for i, l := range x.Lhs {
+				if i < len(summary) {
+					if k := p.ikey(l); k != "" {
+						kill(k)
+						if summary[i].scalar != nil && (summary[i].scalar.lo != nil || summary[i].scalar.hi != nil) {
+							out[k] = *summary[i].scalar
+						}
+						for n, lv := range summary[i].limbs {
+							out[k+"["+itoa(n)+"]"] = lv
+						}
+						if r, ok := p.knownResult(p.calleeName(call), i); ok {
+							out[k] = meetIval(out[k], r)
+						}
+						if i == 0 && p.ivZeroCoef && p.calleeName(call) == "Decimal.decompose" {
+							p.setLimbsZero(out, l)
+						}
+						continue
+					}
+				}
 				k := p.ikey(l)
 				if k == "" {
 					continue
@@ -763,6 +870,15 @@ func (p *Prog) envStep(s ast.Stmt, cur ienv) ienv {
 				if call != nil {
 					if r, ok := p.knownResult(p.calleeName(call), i); ok {
 						out[k] = r
+					}
+					if i == 0 && (zeroIn || (p.ivZeroCoef && p.calleeName(call) == "Decimal.decompose")) {
+						p.setLimbsZero(out, l)
+					}
+					if i == 1 && zeroIn {
+						// the remainder of dividing zero
+						if t := p.typeOf(l); t != nil && isIntType(t) {
+							out[k] = ival{lo: big.NewInt(0), hi: big.NewInt(0)}
+						}
 					}
 				}
 			}
@@ -824,6 +940,36 @@ func (p *Prog) envStep(s ast.Stmt, cur ienv) ienv {
 		return out
 	case *ast.LabeledStmt:
 		return p.envStep(x.Stmt, cur)
+	case *ast.ReturnStmt:
+		if n := len(p.ivRets); n > 0 {
+			fr := p.ivRets[n-1]
+			var vals []ivResult
+			for _, r := range x.Results {
+				var v ivResult
+				t := p.typeOf(r)
+				switch {
+				case t != nil && isIntType(t):
+					iv := p.evalI(r, cur)
+					v.scalar = &iv
+				case t != nil && limbsOf(t) > 1:
+					if k := p.exprKey(r); k != "" {
+						for i := 0; i < limbsOf(t); i++ {
+							lv, ok := cur[k+"["+itoa(i)+"]"]
+							if !ok {
+								lv = ival{lo: big.NewInt(0), hi: new(big.Int).SetUint64(^uint64(0))}
+							}
+							v.limbs = append(v.limbs, lv)
+						}
+					}
+				}
+				vals = append(vals, v)
+			}
+			if len(x.Results) == 0 {
+				fr.unknown = true
+			}
+			fr.rets = append(fr.rets, vals)
+		}
+		return cur
 	case *ast.BranchStmt:
 		if n := len(p.ivFrames); n > 0 && x.Label == nil {
 			switch x.Tok {
@@ -1147,4 +1293,141 @@ func (p *Prog) paramEnv(fd *ast.FuncDecl) ienv {
 // always bounded by their own types, so this arises only for untyped situations; keep the type range.
 func (p *Prog) halfBounded(out, l, r, tr ival) ival {
 	return tr
+}
+
+// zeroLimbsResult: call is a method of the integer kernel (uintN) that maps zero to zero (scaling by a
+// constant, division by a constant) applied to a receiver all of whose limbs are known to be zero.
+func (p *Prog) zeroLimbsResult(call *ast.CallExpr, env ienv) bool {
+	sel, ok := call.Fun.(*ast.SelectorExpr)
+	if !ok {
+		return false
+	}
+	cn := p.calleeName(call)
+	dot := strings.Index(cn, ".")
+	if dot < 0 || !strings.HasPrefix(cn, "uint") {
+		return false
+	}
+	m := cn[dot+1:]
+	if !(strings.HasPrefix(m, "mul") || strings.HasPrefix(m, "div") || m == "lsh" || m == "rsh") {
+		return false
+	}
+	n := limbsOf(p.typeOf(sel.X))
+	k := p.exprKey(sel.X)
+	if n < 1 || k == "" {
+		return false
+	}
+	for i := 0; i < n; i++ {
+		v, ok := env[k+"["+itoa(i)+"]"]
+		if !ok {
+			return false
+		}
+		if pt, isPt := v.point(); !isPt || pt.Sign() != 0 {
+			return false
+		}
+	}
+	return true
+}
+
+func (p *Prog) setLimbsZero(env ienv, l ast.Expr) {
+	k := p.exprKey(l)
+	n := limbsOf(p.typeOf(l))
+	if k == "" || n < 1 {
+		return
+	}
+	for i := 0; i < n; i++ {
+		env[k+"["+itoa(i)+"]"] = ival{lo: big.NewInt(0), hi: big.NewInt(0)}
+	}
+}
+
+type ivResult struct {
+	scalar *ival
+	limbs  []ival
+}
+
+type ivRetFrame struct {
+	rets    [][]ivResult
+	unknown bool
+}
+
+// calleeSummary: the intervals of the results of a call to a package function, obtained by running the
+// analysis over the callee with its parameters bound to the intervals of the arguments (integers and
+// limb values), joined over its return statements. Depth-limited; nil when nothing is known.
+func (p *Prog) calleeSummary(call *ast.CallExpr, env ienv) []ivResult {
+	fd := p.Funcs[p.calleeName(call)]
+	if fd == nil || fd.Body == nil || fd.Type.Params == nil || p.ivCallDepth >= 2 {
+		return nil
+	}
+	if fd.Recv != nil && strings.HasPrefix(recvTypeName(fd.Recv.List[0].Type), "uint") {
+		return nil // the integer kernel is summarised by zeroLimbsResult only
+	}
+	if fd.Type.Results != nil {
+		for _, f := range fd.Type.Results.List {
+			if len(f.Names) > 0 {
+				return nil // named results: bare returns are not modelled
+			}
+		}
+	}
+	var names []*ast.Ident
+	for _, f := range fd.Type.Params.List {
+		names = append(names, f.Names...)
+	}
+	if len(names) != len(call.Args) {
+		return nil
+	}
+	in := ienv{}
+	for i, nm := range names {
+		t := p.typeOf(nm)
+		k := p.exprKey(nm)
+		if t == nil || k == "" {
+			continue
+		}
+		switch {
+		case isIntType(t):
+			if iv := p.evalI(call.Args[i], env); iv.lo != nil || iv.hi != nil {
+				in[k] = iv
+			}
+		case limbsOf(t) > 1:
+			if ak := p.exprKey(call.Args[i]); ak != "" {
+				for n := 0; n < limbsOf(t); n++ {
+					if lv, ok := env[ak+"["+itoa(n)+"]"]; ok {
+						in[k+"["+itoa(n)+"]"] = lv
+					}
+				}
+			}
+		}
+	}
+	p.ivCallDepth++
+	fr := &ivRetFrame{}
+	p.ivRets = append(p.ivRets, fr)
+	saveFrames := p.ivFrames
+	p.ivFrames = nil
+	p.envWalk(fd.Body.List, in, nil)
+	p.ivFrames = saveFrames
+	p.ivRets = p.ivRets[:len(p.ivRets)-1]
+	p.ivCallDepth--
+	if fr.unknown || len(fr.rets) == 0 {
+		return nil
+	}
+	out := fr.rets[0]
+	for _, r := range fr.rets[1:] {
+		if len(r) != len(out) {
+			return nil
+		}
+		for i := range out {
+			if out[i].scalar != nil && r[i].scalar != nil {
+				j := joinIval(*out[i].scalar, *r[i].scalar)
+				out[i].scalar = &j
+			} else {
+				out[i].scalar = nil
+			}
+			if len(out[i].limbs) == len(r[i].limbs) {
+				for n := range out[i].limbs {
+					out[i].limbs[n] = joinIval(out[i].limbs[n], r[i].limbs[n])
+				}
+			} else {
+				out[i].limbs = nil
+			}
+		}
+	}
+	return out
 }
